@@ -59,7 +59,7 @@ theorem KF_addl_null_panics (w : Wire) (env : Env) (f : Nat) :
     let d : Decl := { name := "T", ty := .strct [afl], body := .plain [.dflt "AdditionalProperties" "" (.obj [])] true }
     runMethod w env (f + 3) d .null = .error (.panic "mapstructure-nil-map") := by
   intro afl d
-  cases w <;> simp [runMethod, d, afl, runBefore, decode, runAfter, literalOK, literal, fieldTyOf, zeroOf,
+  cases w <;> simp [runMethod, d, afl, runBefore, decode, runAfter, dfltAbsent, literalOK, literal, fieldTyOf, zeroOf,
     zeroOf.zeroFields, setField, Validator.before, Validator.requiresRawAfter, bind, Except.bind]
 
 end GJS.Props.C19
